@@ -90,6 +90,9 @@ func (r *Report) violate(v Viol) {
 		}
 	}
 	r.Extra["violating_executions"]++
+	if len(r.Violations) >= 64 {
+		return
+	}
 	if len(v.Msg) > 4000 {
 		v.Msg = v.Msg[:4000]
 	}
